@@ -32,7 +32,9 @@ pub fn free_port() -> u16 {
     static NEXT: std::sync::atomic::AtomicU32 = std::sync::atomic::AtomicU32::new(0);
     loop {
         let n = NEXT.fetch_add(1, std::sync::atomic::Ordering::SeqCst);
-        let base = 20000 + (std::process::id() % 400) * 100;
+        // below the kernel's ephemeral range (32768..60999): an outgoing connection of some other process must not be
+        // able to take the port between this probe and the server's bind
+        let base = 10000 + (std::process::id() % 220) * 100;
         let port = (base + n % 100 + (n / 100) * 7) as u16;
         if port < 1024 {
             continue;
